@@ -6,6 +6,7 @@
 import IppModel.Model.Request
 import IppModel.Spec.Names
 import IppModel.Lemmas.SMapBasic
+import IppModel.Lemmas.Uri
 namespace Ipp.Props.C13
 open Ipp Ipp.Gen Ipp.Spec
 
@@ -14,15 +15,15 @@ theorem scheme_pin : Gen.canonScheme = N.ipp := by decide
 /-- Whatever the authority is, the host written into printer-uri contains no '@': the user-info part
     (everything up to the last '@') never reaches the result. -/
 theorem host_has_no_at (raw : Bytes) : cAt ∉ hostOf raw := by
-  sorry
+  exact UriL.hostOf_not_at raw
 
 /-- the decimal text of a port contains only digits -/
 theorem dec_digits (n : Nat) : ∀ b ∈ natToDec n, isDigit b = true := by
-  sorry
+  exact UriL.natToDec_digits n
 
 /-- no '@' and no '?' anywhere in the canonical authority -/
 theorem canon_authority_clean (raw : Bytes) : cAt ∉ canonAuthority raw := by
-  sorry
+  exact UriL.canonAuthority_not_at raw
 
 /-- Shape of the canonical URI of a target with an authority: scheme ipp, the same host, `:port` exactly
     when the authority carries a port, the same path, no query. -/
@@ -32,13 +33,13 @@ theorem canon_shape (u : Uri) (raw : Bytes) (h : u.authority = some raw) :
         ((match portOf raw with
           | some p => cColon :: natToDec p
           | none => []) ++ u.path))) := by
-  sorry
+  exact UriL.renderUri_canonUri u raw h
 
 /-- the fallback branch (builder failure) is taken only for targets without authority, which have no
     user-info to leak -/
 theorem fallback_only_without_authority (u : Uri) (h : canonUri u = u) (hq : u.query.isSome ∨ u.scheme ≠ some N.ipp) :
     u.authority = none := by
-  sorry
+  exact UriL.canonUri_fixed_authority u h hq
 
 /-- an authority is bracket-balanced when a host starting with '[' has its ']' (the `http` crate validates this) -/
 def bracketOk (raw : Bytes) : Bool :=
@@ -48,12 +49,15 @@ def bracketOk (raw : Bytes) : Bool :=
 
 /-- the port text round-trips: `u16::from_str(format!("{}", p)) = p` -/
 theorem parse_dec (p : Nat) (h : p ≤ 65535) : parseU16 (natToDec p) = some p := by
-  sorry
+  exact UriL.parseU16_natToDec p h
 
 /-- Canonicalising an already canonical URI changes nothing. -/
 theorem idempotent (u : Uri) (hb : ∀ raw, u.authority = some raw → bracketOk raw = true) :
     canonUri (canonUri u) = canonUri u := by
-  sorry
+  refine UriL.canonUri_idem u (fun raw ha r hr => ?_)
+  have h := hb raw ha
+  simp only [bracketOk, hr, if_true] at h
+  simpa using h
 
 /-- For a structured authority `[userinfo@]host[:port]` whose host is a registered name or IPv4 address
     (no '@', ':' , '[') the host component is recovered exactly, with and without user-info and port. -/
@@ -61,18 +65,18 @@ theorem host_of_structured (userinfo : Option Bytes) (host : Bytes) (port : Opti
     (hh : host ≠ [] ∧ cAt ∉ host ∧ cColon ∉ host ∧ host.head? ≠ some cLBr)
     (hp : ∀ p, port = some p → cAt ∉ p) :
     hostOf ((match userinfo with | some ui => ui ++ [cAt] | none => []) ++ (host ++ (match port with | some p => cColon :: p | none => []))) = host := by
-  sorry
+  exact UriL.hostOf_structured userinfo host port hh hp
 
 /-- …and for a bracketed IPv6 literal -/
 theorem host_of_structured_v6 (userinfo : Option Bytes) (inner : Bytes) (port : Option Bytes)
     (hi : cAt ∉ inner ∧ cRBr ∉ inner) (hp : ∀ p, port = some p → cAt ∉ p) :
     hostOf ((match userinfo with | some ui => ui ++ [cAt] | none => []) ++
       ((cLBr :: inner ++ [cRBr]) ++ (match port with | some p => cColon :: p | none => []))) = cLBr :: inner ++ [cRBr] := by
-  sorry
+  exact UriL.hostOf_structured_v6 userinfo inner port hi hp
 
 /-- every request constructor writes the canonical form of its target as printer-uri -/
 theorem ctor_printer_uri (ver : UInt16) (op : Operation) (u : Uri) :
     ∃ g, (newRequest ver op (some u)).groups = [g] ∧ sget A.PRINTER_URI g.attrs = some (.str .uri (renderUri (canonUri u))) := by
-  sorry
+  exact UriL.newRequest_printer_uri ver op u
 
 end Ipp.Props.C13
